@@ -207,7 +207,7 @@ static void exec(void)
     }
     mc_extra(0, "reads_refused", 1);
     /* the rules are process-wide: the same read issued from another thread is refused in the same way */
-    { thr_arg ta; pthread_t th;
+    if (mc_tag == 0 || mc_tag == 4 || mc_tag == 7) { thr_arg ta; pthread_t th;       /* one entry point of each family: single file, merged, history */
       if (pthread_create(&th, NULL, read_in_thread, &ta) != 0) mc_die("pthread_create");
       pthread_join(th, NULL);
       if (ta.rc != rc) mc_fail(sig.s, "the read returns %d (%s) in the thread that set the rules and %d (%s) in another thread; %s", (int)rc, econf_errString(rc), (int)ta.rc, econf_errString(ta.rc), sig.s);
